@@ -100,7 +100,7 @@ func c12Build(kind, forms string, dflt, dfltBrace bool) *c12Tpl {
 			contents = append(contents, content)
 			contentsOut = append(contentsOut, content)
 		}
-	case "statements", "statements-nested", "statements-nested-default":
+	case "statements", "statements-nested", "statements-nested-default", "statements-nested-colon":
 		s := at.New(ClsUserName, "script", "names")
 		c0 := at.New(ClsPlainCmd, "cmd", "")
 		c1 := at.New(ClsPlainCmd, "cmd", "")
@@ -119,6 +119,11 @@ func c12Build(kind, forms string, dflt, dfltBrace bool) *c12Tpl {
 				}
 			} else {
 				content = fmt.Sprintf("%s(\"text %d$\", %s)", ph(ca), i, ph(f))
+				if kind == "statements-nested-colon" && i == 0 {
+					// the single statement of a colon-form case is itself a
+					// poryswitch (on the same key); other cases follow it
+					content = fmt.Sprintf("poryswitch(%s) {\n%s: %s(\"nested$\")\n_: %s\n}", ph(t.key), ph(t.labels[0]), ph(cb), ph(ca))
+				}
 			}
 			if kind == "statements-nested-default" && i == n {
 				// inside the '_' case: a poryswitch on the same key that has a case
@@ -128,6 +133,9 @@ func c12Build(kind, forms string, dflt, dfltBrace bool) *c12Tpl {
 			}
 			contents = append(contents, content)
 			out := content
+			if kind == "statements-nested-colon" && i == 0 && !isBrace(i) {
+				out = fmt.Sprintf("%s(\"nested$\")", ph(cb))
+			}
 			if kind == "statements-nested" && i == 0 && isBrace(i) {
 				// when case 0 is selected the nested poryswitch selects its first case too
 				out = fmt.Sprintf("%s(\"text %d$\")\nif (flag(%s)) {\n%s\n}\n%s(\"nested$\")", ph(ca), i, ph(f), ph(cb), ph(cb))
@@ -361,6 +369,11 @@ func RunC12(env *Env, rep *Report) {
 	}
 	for _, f := range []string{"c", "cb"} {
 		cases = append(cases, c12Case(c12Build("statements-nested-default", f, true, true), false))
+	}
+	for _, f := range []string{"cc", "cb"} {
+		for _, d := range []int{0, 1, 2} {
+			cases = append(cases, c12Case(c12Build("statements-nested-colon", f, d > 0, d == 2), false))
+		}
 	}
 	// a constant that may be spelled like a case label or the switch value
 	for _, kind := range []string{"statements", "text", "movement", "mart"} {
